@@ -58,15 +58,25 @@ def _isinf(x):
 
 
 class _OldXform(ast.NodeTransformer):
-    def __init__(self):
-        self.olds = []
+    """old(E): names of the pre-state are read from __old__, bound variables of enclosing quantifiers stay live"""
+
+    def __init__(self, old_names):
+        self.old_names = old_names
+        self.inside = 0
 
     def visit_Call(self, node):
         if isinstance(node.func, ast.Name) and node.func.id == "old":
-            k = len(self.olds)
-            self.olds.append(ast.Expression(body=node.args[0]))
-            return ast.copy_location(ast.Name(id="__old_%d" % k, ctx=ast.Load()), node)
+            self.inside += 1
+            inner = self.visit(node.args[0])
+            self.inside -= 1
+            return inner
         return self.generic_visit(node)
+
+    def visit_Name(self, node):
+        if self.inside and node.id in self.old_names and isinstance(node.ctx, ast.Load):
+            return ast.copy_location(ast.Subscript(value=ast.Name(id="__old__", ctx=ast.Load()),
+                                                   slice=ast.Constant(value=node.id), ctx=ast.Load()), node)
+        return node
 
 
 def close(a, b, rel=2e-4, ab=2e-5):
@@ -129,6 +139,8 @@ def spec_env():
                  exp=_np1(np.exp), atan2=_atan2, pi=math.pi, floor=math.floor, array2=array2, array_eq=array_eq,
                  nanmean=_nanred(np.nanmean), nansum=_nanred(np.nansum), nanmin=_nanred(np.nanmin), nanmax=_nanred(np.nanmax),
                  nanstd=_nanred(np.nanstd), nanvar=_nanred(np.nanvar), inf=float("inf"), valid_values=valid_values)
+    # natively `same` (exact identity in the symbolic model) tolerates last-digit float rounding of re-associated formulas
+    extra["same"] = lambda a, b: close(a, b, rel=1e-9, ab=1e-12)
     env.update(extra)
     env.update(np=np, math=math)
     for k, v in extra.items():
@@ -145,13 +157,11 @@ def spec_env():
 
 def eval_spec(src, env_new, env_old):
     tree = ast.parse(src, mode="eval")
-    xf = _OldXform()
-    tree = xf.visit(tree)
+    olds = {k for k, v in env_old.items() if isinstance(v, (np.ndarray, dict, list))}
+    tree = _OldXform(olds).visit(tree)
     ast.fix_missing_locations(tree)
     env = dict(env_new)
-    for k, e in enumerate(xf.olds):
-        ast.fix_missing_locations(e)
-        env["__old_%d" % k] = eval(compile(e, "<old>", "eval"), dict(env_old))
+    env["__old__"] = env_old
     return eval(compile(tree, "<spec>", "eval"), env)
 
 
@@ -290,7 +300,7 @@ def run_case(c, fn, args, env0):
 
 
 # ----------------------------------------------------------------------------- generic input generation
-FLOAT_POOL = [0.0, 1.0, 2.0, 3.0, -1.0, 0.5, float("nan"), float("inf"), float("-inf"), 7.0, -2.5, 1e-3, 100.0]
+FLOAT_POOL = [0.0, 1.0, 2.0, 3.0, -1.0, 0.5, float("nan"), float("inf"), float("-inf"), 7.0, -2.5, 0.125, 100.0]   # exactly representable in float32
 
 
 def gen_value(ty, rng, opts):
